@@ -54,8 +54,51 @@ def run(ctx):
             ok &= q.is_call(den, 'sum') and any(norm(x) == pushes[0] for x in facts.walk(den)) and any(norm(x) == pushes[0] for x in facts.walk(dv['num']))
         # the comparison with an existing infoset and the stored data both use the normalised vector: the division dominates the entry() call
         ent = [bi for bi, t, e in q.calls_named(f, 'entry') if 'chance_infosets' in facts.show(e[2][0])]
-        dom = bool(ent) and all(f.dominates(f.loop_of(dv['bi'])[0] if f.loop_of(dv['bi']) else dv['bi'], ent[0]) for dv in divs)
-        ctx.verdict(ok and dom, rule, rule + ':own-sum-before-use', 'chance weights are divided by the sum of their own node\'s weights before they are stored or compared', f.where(line=divs[0]['line']) if divs else f.where(0),
+        if not divs and pushes and ent:
+            # the same rescaling as an iterator chain: `weights.into_iter().map(|w| w / total).collect()` with
+            # `total = weights.iter().sum()`; what is stored / compared is the collected chain
+            chains = []
+            for bi, t, e in q.calls_named(f, 'map'):
+                cf, _ = q.closure_of(lib, e[2][1]) if len(e[2]) > 1 else (None, None)
+                if cf is None or not any(norm(x) == pushes[0] for x in facts.walk(e[2][0])):
+                    continue
+                cdivs = list(e2.f64_divisions(cf))
+                if len(cdivs) != 1:
+                    continue
+                ip = q.item_param(cf)
+                den = strip_refs(q.resolve_captures(lib, cf, cdivs[0]['den']))
+                num_ok = q.find_sub(cdivs[0]['num'], lambda x: x[0] == 'param' and x[1] == ip) is not None
+                r = strip_refs(q.ret_expr(cf))
+                ret_is_div = r[0] == 'bin' and r[1] == 'Div'
+                if num_ok and ret_is_div and q.is_call(den, 'sum') and any(norm(x) == pushes[0] for x in facts.walk(den)):
+                    chains.append((bi, e, cdivs[0]))
+            if len(chains) == 1:
+                cbi, ce, cdv = chains[0]
+                ctx.touch(lib.fns[q.closure_of(lib, ce[2][1])[0].name])
+                same = lambda x: x[0] == 'call' and len(x) > 3 and x[3] == ce[3]
+                # every value built from the weights that reaches the table (stored on insertion, compared on a hit)
+                # is the collected chain
+                uses_ok = True
+                n_use = 0
+                for bi, t, e in q.calls_named(f, 'new'):
+                    if 'ChanceInfosetData' in e[1]:
+                        n_use += 1
+                        uses_ok &= q.find_sub(e, same) is not None
+                for bi, t, e in list(q.calls_named(f, 'eq')) + list(q.calls_named(f, 'ne')):
+                    if any(norm(x) == pushes[0] for x in facts.walk(e)):
+                        n_use += 1
+                        uses_ok &= q.find_sub(e, same) is not None
+                ok2 = uses_ok and n_use >= 2
+                dom2 = f.dominates(cbi, ent[0])
+                ctx.verdict(ok2 and dom2, rule, rule + ':own-sum-before-use', 'chance weights are divided by the sum of their own node\'s weights before they are stored or compared', f.where(line=cdv['line']),
+                            'iterator form: each weight / sum of the same vector, collected; stored and compared values are that chain: %s (%d uses); before the infoset lookup: %s' % (uses_ok, n_use, dom2),
+                            breaks='multiplying a node\'s weights by a constant changes the game (or makes shared infosets unequal)')
+                divs = None
+        if divs is None:
+            pass
+        else:
+          dom = bool(ent) and all(f.dominates(f.loop_of(dv['bi'])[0] if f.loop_of(dv['bi']) else dv['bi'], ent[0]) for dv in divs)
+          ctx.verdict(ok and dom, rule, rule + ':own-sum-before-use', 'chance weights are divided by the sum of their own node\'s weights before they are stored or compared', f.where(line=divs[0]['line']) if divs else f.where(0),
                     'normalised by own sum: %s; before the infoset lookup: %s' % (ok, dom), breaks='multiplying a node\'s weights by a constant changes the game (or makes shared infosets unequal)')
     # ---------------- (2) insertion order
     rule = 'C12.insertion-order'
